@@ -462,6 +462,20 @@ class RaisesAt(object):
         return value
 
 
+class FailsFor(object):
+    """a predicate that fails (AttributeError, as when a value lacks an attribute) for the values
+    *fails* says, and answers *pred* otherwise"""
+
+    def __init__(self, pred, fails):
+        self.pred = pred
+        self.fails = fails
+
+    def __call__(self, value):
+        if self.fails(value):
+            raise AttributeError("the value has no such attribute")
+        return self.pred(value)
+
+
 class Numbering(object):
     """stateful callable pre-element: numbers the values it sees"""
 
